@@ -263,6 +263,7 @@ def r02_3(prog, out):
 
 @rule("C02", "R02.4", "unknown / stale ack ids fall through without any effect", floor=2)
 @rule("C05", "R02.4", "unknown / stale ack ids fall through without any effect", floor=2)
+@rule("C04", "R02.4", "unknown / stale ack ids fall through without any effect", floor=2)
 def r02_4(prog, out):
     A = prog.anchors
     tracker = A.ty("OutstandingMessageTracker")
